@@ -18,7 +18,7 @@ PROPS["C11"] = {
                    "Elligator map are compared with RFC MAP on 64-byte strings incl. halves >= p and bit 255. Add/Sub/Neg/Mul/MulBasepoint (stock "
                    "and custom table)/double-base/triple-base/multiscalar (ct, vartime, expanded; also 64..200 terms)/Sum/ConditionalSelect/Set/"
                    "expanded points are compared with affine reference arithmetic on the Edwards representatives through RFC ENCODE. "
-                   "Does not prove absence."),
+                   "Does not prove absence. String classes include byte-wise comparison probes against p walked to valid encodings; CompressedRistretto.UnmarshalBinary is repeated on a receiver that already holds the input."),
     "level_note": ("Trusted: math/big, verifref (RFC 9496 vectors reproduced in its self-test), rapid. Not asserted: SetCompressed's receiver "
                    "after an error (undocumented; UnmarshalBinary's is: identity); the bytes produced for curve points outside 2E (they "
                    "represent no element; only Equal = 0 and 'differs from the element's encoding' are required); Sum with the receiver among "
